@@ -100,7 +100,7 @@ Definition empty_h : hstate := mkH [] [] None.
 Inductive err := EInput (* HTTPInputError *) | EKey (* KeyError *) | EIndex (* IndexError *).
 Inductive res :=
 | RUnit | RErr (e : err) | RText (t : text) | RBool (b : bool)
-| RList (l : list text) | RPairs (l : list (text * text)) | RBadTarget | RNat (n : nat).
+| RList (l : list text) | RPairs (l : list (text * text)) | RBadTarget | RNat (n : nat) | ROutOfFuel.
 
 (* __setitem__ : no validation, does not touch _last_key *)
 Definition set_item (n v : text) (h : hstate) : hstate :=
@@ -277,6 +277,36 @@ Fixpoint items_go (ks : list text) (acc : list (text * text)) (h : hstate) : res
                 end
   end.
 Definition items (h : hstate) : res * hstate := items_go (keys h) [] h.
+(* MutableMapping.popitem(): key = next(iter(self)) (StopIteration -> KeyError); value = self[key];
+   del self[key]; return (key, value) *)
+Definition pop_first (h : hstate) : res * hstate :=
+  match keys h with
+  | [] => (RErr EKey, h)
+  | k :: _ =>
+      let '(r, h1) := get_item k h in
+      match r with
+      | RText v => match del_item k h1 with
+                   | (RUnit, h2) => (RPairs [(k, v)], h2)
+                   | (e, h2) => (e, h2)
+                   end
+      | _ => (r, h1)
+      end
+  end.
+(* MutableMapping.clear(): try: while True: self.popitem()  except KeyError: pass *)
+Fixpoint clear_loop (fuel : nat) (h : hstate) : res * hstate :=
+  match fuel with
+  | O => match as_list h with [] => (RUnit, h) | _ => (ROutOfFuel, h) end
+  | S f => match pop_first h with
+           | (RErr EKey, h') => (RUnit, h')
+           | (RPairs _, h') => clear_loop f h'
+           | (r, h') => (r, h')
+           end
+  end.
+Definition clear (h : hstate) : res * hstate := clear_loop (length (as_list h)) h.
+(* list(h.values()): [self[k] for k in iter(self)] *)
+Definition values (h : hstate) : res * hstate :=
+  let '(r, h') := items h in
+  (match r with RPairs l => RList (map snd l) | _ => r end, h').
 (* MutableMapping.update(pairs) / the dict-style constructor: self[k] = v for each pair *)
 Definition update_all (l : list (text * text)) (h : hstate) : hstate :=
   fold_left (fun h kv => set_item (fst kv) (snd kv) h) l h.
@@ -293,7 +323,8 @@ Definition dict_eqb (a b : list (text * text)) : bool :=
 Inductive op :=
 | Add (n v : text) | SetItem (n v : text) | DelItem (n : text) | GetItem (n : text)
 | GetList (n : text) | Contains (n : text) | Keys | GetAll | ParseLine (l : text) | ToString
-| GetD (n : text) | Pop (n : text) | SetDefault (n v : text) | Items | Len | Update (l : list (text * text)).
+| GetD (n : text) | Pop (n : text) | SetDefault (n v : text) | Items | Len | Update (l : list (text * text))
+| PopItem | Clear | Values.
 
 Definition step (o : op) (h : hstate) : res * hstate :=
   match o with
@@ -313,6 +344,9 @@ Definition step (o : op) (h : hstate) : res * hstate :=
   | Items => items h
   | Len => (RNat (length (as_list h)), h)
   | Update l => (RUnit, update_all l h)
+  | PopItem => pop_first h
+  | Clear => clear h
+  | Values => values h
   end.
 
 (* ---------- programs over several objects (object 0 = HTTPHeaders()) ---------- *)
